@@ -523,6 +523,9 @@ func c12Today(e *core.Env, r *core.Rand, d *gen.Out, f string, today ref.Date, m
 		return
 	}
 	e.Count("today_views", 1)
+	if r.Chance(1, 2) && !checkFollow(e, r, d, f, today, minute, 0, w) {
+		return
+	}
 	if !now {
 		pres := runRO(e, &cli.Print{WithTotals: true, WarnArgs: util.WarnArgs{NoWarn: true}, NoStyleArgs: util.NoStyleArgs{NoStyle: true}, InputFilesArgs: util.InputFilesArgs{File: files(f)}}, 1, "", "", clock)
 		if pres.Panic == nil && pres.Err == nil {
